@@ -24,3 +24,11 @@ Proof. exact short_is_last_of_user_host_port. Qed.
 Theorem C18_truncate_removes_exactly_params_and_headers : forall u,
   uri_truncate u = mkpuri (u_type u) (u_scheme u) (u_user u) (u_pass u) (u_host u) (u_port u) pf0 pf0 (u_portno u).
 Proof. exact truncate_exact. Qed.
+(* a span too short to hold the URI is refused: the bound is over every present component,
+   wherever it lies in the text (before fix 6ff1ed6 the last component in struct order decided) *)
+Theorem C18_accepted_relocation_fits_the_span : forall u np u', uri_adjust u np = (true, u') ->
+  Forall (fun f => po f <> 0 -> to16 (po f + 65536 - po (u_scheme u)) + pl f <= pl np) (uri_fields u).
+Proof. exact adjust_ok_fits. Qed.
+Theorem C18_span_too_short_for_a_component_refused : forall u np f, In f (uri_fields u) -> po f <> 0 ->
+  pl np < to16 (po f + 65536 - po (u_scheme u)) + pl f -> uri_adjust u np = (false, u).
+Proof. exact adjust_too_short_refused. Qed.
